@@ -121,7 +121,9 @@ func RunOnce(sc *Scenario, prefix []int, keep bool, onStep func(*vsched.Sched, *
 		InitWorkRoot()
 	}
 	root := filepath.Join(workRoot, "w")
-	os.RemoveAll(root)
+	if err := os.RemoveAll(root); err != nil {
+		panic(fmt.Sprintf("scratch tree of the previous execution cannot be removed: %v", err))
+	}
 	if err := os.Mkdir(root, 0o755); err != nil {
 		panic(err)
 	}
@@ -130,6 +132,7 @@ func RunOnce(sc *Scenario, prefix []int, keep bool, onStep func(*vsched.Sched, *
 	x := &X{S: s, Root: root, fds: map[string]int{}, Vars: map[string]any{}, Pending: map[int]string{}}
 	if onStep != nil {
 		s.OnStep = func(ss *vsched.Sched) { onStep(ss, x) }
+		s.Shared = x.SharedDigest
 	}
 	res := &ExecResult{}
 	var fdsBefore map[string]int
